@@ -194,5 +194,6 @@ def run_bounded(rep, quick):
         'T(x,x,y), T(x,y), T(x,y,y), T(y,x), T(x,y,x), ... side by side and T(G1,G2,c) over two duplicate gates G1, G2 (multiset comparison of the '
         'operands in no-duplicates matters exactly here); one evaluation = one (circuit, pass or pipeline) pair',
         'K<=2 exhaustive (reduced alphabet in quick); repeated-operand family 504 (quick) / 1296 (thorough) circuits of 5-9 gates; '
+        'unary-chain family (chains of 2..6 (quick) / 2..8 (thorough) NOT/LNOT/RNOT/IFF/LIFF/RIFF gates, tapped at the end, at every member and by consumers; 300 / 420 circuits); '
         'random K<=8 (quick) / K<=10 (thorough)', exhaustive=False)
     C.run_chunks(rep, NAME, quick, 'C18', check)
